@@ -47,6 +47,7 @@ func rtGenConfig() model.GenConfig {
 	cfg.MaxProtocols = 2
 	cfg.Comments = false
 	cfg.KindPairPct = 35
+	cfg.AliasKeyPct = 30
 	cfg.RootNamespace = "Mdl" // "Main" would become the C++ namespace `main`, clashing with the driver's entry point
 	return cfg
 }
